@@ -1,4 +1,5 @@
 import Gtree.Lemmas.EntryFacts
+import Gtree.Lemmas.HeapWalk
 import Gtree.Lemmas.SourceRefines
 import Gtree.Lemmas.Output
 import Gtree.Lemmas.PathLex
@@ -140,4 +141,31 @@ theorem C05_facts_entry_points_configuration : Facts.entryConfig = expectedEntry
     `OutputProgrammably`, `MkdirProgrammably`, `VerifyProgrammably`, `WalkProgrammably`, `WalkIterProgrammably`) has, word for
     word, the body of the function that replaces it. -/
 theorem C05_facts_aliases_identical : Facts.aliasBodiesEqual.all (fun e => e.2) = true := aliases_identical
+end Gtree
+
+namespace Gtree
+/-- Tie to the source, pointer code included (heap mode of /verif/translate, `Generated/SourceHeap.lean`, regenerated
+    on every run): the WALKER of simple_tree_walker.go (`walk`, the recursion `walkNode`) after the GROWER of
+    simple_tree_grower.go, both translated statement by statement over an explicit heap, with the user's callback as
+    an arbitrary state machine `cb` that is handed the node.  For every heap that holds a forest (all pointers
+    different), every four branch strings and every fuel above `2·size + 1`: growing succeeds; the walk then calls the
+    callback on exactly the nodes of the forest, in pre-order, each once, until the callback returns an error — that
+    error is the walk's result, unchanged, and nothing is called after it (`callAll`); and what the callback reads
+    from the nodes it is handed (name, branch, level, path, has-child: the accessors of `C05_walker_node_is_the_source`)
+    is, node for node, the model's `growRoot` of every root — the visits all C05 theorems are about. -/
+theorem C05_walker_is_the_source {σ : Type} (dg : SrcH.defaultGrowerSimple) (dw : SrcH.defaultWalkerSimple)
+    (ts : List T) (h : SrcH.Heap) (rs : List Go.Ptr) (fuel : Nat) (cb : Go.Ptr → σ → σ × Option Src.Err) (s : σ)
+    (hr : SrcH.ReprRoots h ts rs) (hnd : (SrcH.ptrsKids h ts rs).Nodup) (hf : 2 * sizeList ts + 1 ≤ fuel)
+    (hv : dg.enabledValidation = false) :
+    ∃ h', SrcH.defaultGrowerSimple.grow fuel h dg rs = some (h', none) ∧
+      SrcH.defaultWalkerSimple.walk fuel h' s dw rs cb = some (SrcH.callAll cb (SrcH.ptrsKids h ts rs) s) ∧
+      (SrcH.ptrsKids h ts rs).map (SrcH.visitOf h') = ts.flatMap (growRoot (SrcH.fmtOf dg)) := by
+  obtain ⟨h', hrun, hrest⟩ := SrcH.grow_forest dg ts h rs fuel hr hnd hf
+  have he : SrcH.expErr dg (ts.flatMap (growRoot (SrcH.fmtOf dg))) = none := by simp [SrcH.expErr, hv]
+  rw [he] at hrun
+  obtain ⟨hs, _, hrd⟩ := hrest he
+  have hr' := SrcH.ReprRoots_shape hs ts rs hr
+  refine ⟨h', hrun, ?_, ?_⟩
+  · rw [SrcH.walk_heap dw h' cb ts s rs fuel hr' (by omega), SrcH.ptrsKids_shape hs]
+  · rw [← SrcH.ptrsKids_shape hs, SrcH.roots_visits h' ts rs hr', hrd]
 end Gtree
